@@ -83,7 +83,7 @@ type Case struct {
 	Goroutines int      `json:"goroutines"` // concurrent RestoreChunk callers
 	Dups       int      `json:"dups"`       // extra deliveries of already scheduled chunks
 	AbortAt    int      `json:"abort_at"`   // abort + restart after that many deliveries (-1: never)
-	Gate       int      `json:"gate"`       // -1: none; -2: last chunk; k >= 0: chunk k mod n is pinned in flight (blocking reader) while another caller restores all other chunks
+	Gate       int      `json:"gate"`       // 0: none; -1: last chunk; k > 0: chunk (k-1) mod n is pinned in flight (blocking reader) while another caller restores all other chunks
 	GateDup    bool     `json:"gate_dup"`   // a duplicate of the pinned chunk is submitted while the original is in flight
 	FullAbort  bool     `json:"full_abort"` // restarts also AbortMultipartInsert + StartMultipartInsert (else only the restorer is restarted and the multipart insert continues)
 	Corrupt    string   `json:"corrupt"`    // "" flip trunc swap digest other other-digest empty
@@ -863,13 +863,13 @@ func runCase(c Case) (res *result) {
 	doneCount := 0
 	depthHit := ""
 	finalized := false
-	gated := c.Gate != -1 && n >= 2
+	gated := c.Gate != 0 && n >= 2
 	if gated {
 		// phase 3g: chunk k is pinned in flight by caller A; caller B restores every
 		// other chunk.  No call may report done=true before k's import has completed.
 		k := n - 1
-		if c.Gate >= 0 {
-			k = c.Gate % n
+		if c.Gate > 0 {
+			k = (c.Gate - 1) % n
 		}
 		res.s("gated")
 		gr := &gatedReader{r: bytes.NewReader(cp.chunks[k]), started: make(chan struct{}), release: make(chan struct{})}
@@ -1154,9 +1154,8 @@ func genCases(r *prng.R, i int, maxN int, perTree int) []Case {
 			c.AbortAt = r.Intn(1 << 20)
 		}
 		c.FullAbort = r.Chance(40)
-		c.Gate = -1
 		if r.Chance(30) {
-			c.Gate = []int{0, -2, r.Intn(1 << 20), r.Intn(1 << 20)}[r.Intn(4)]
+			c.Gate = []int{1, -1, 1 + r.Intn(1<<20), 1 + r.Intn(1<<20)}[r.Intn(4)]
 			c.GateDup = r.Chance(35)
 		}
 		out = append(out, c)
@@ -1171,7 +1170,7 @@ func deepCases(r *prng.R) []Case {
 		for _, n := range []int{128, 129, 130, 131, 200} {
 			sp := TreeSpec{Kind: k, N: n, Seed: 7, ValMax: 3}
 			out = append(out, Case{Tree: sp, Src: "pathbadger", Dst: []string{"badger", "pathbadger"}[r.Intn(2)],
-				ChunkSize: uint64(40 + r.Intn(5000)), Threads: uint16(r.Intn(5)), RSeed: r.U64(), Goroutines: 1, AbortAt: -1, Gate: -1})
+				ChunkSize: uint64(40 + r.Intn(5000)), Threads: uint16(r.Intn(5)), RSeed: r.U64(), Goroutines: 1, AbortAt: -1})
 		}
 	}
 	return out
@@ -1203,6 +1202,11 @@ func shrink(c Case, kind string) Case {
 	for _, f := range []func(*Case){
 		func(d *Case) { d.Goroutines = 1 },
 		func(d *Case) { d.GateDup = false },
+		func(d *Case) {
+			if d.Gate != 0 {
+				d.Gate = 1
+			}
+		},
 		func(d *Case) { d.Dups = 0 },
 		func(d *Case) { d.AbortAt = -1 },
 		func(d *Case) { d.Corrupt = "" },
